@@ -20,6 +20,7 @@ pub fn spec() -> PropSpec {
         ],
         workers: 16,
         also_nochk: false,
+        fuzz_target: None,
         quick_budget_s: 600,
         thorough_budget_s: 1800,
         min_nontrivial_quick: 16_000_000,
